@@ -1,5 +1,6 @@
 """Check runner: rule bookkeeping, violation keys, known findings, evidence files."""
 import importlib
+import re
 import json
 import os
 import sys
@@ -79,6 +80,8 @@ class Ctx:
         for v in self.violations:
             if v["key"] == full:
                 return
+        if isinstance(where, str):
+            where = re.sub(r"\.tmp-\d+-\d+", "", where)     # witness crates are compiled in a private directory, then renamed
         self.violations.append({"rule": rule, "key": full, "msg": msg, "where": where, "detail": detail})
 
     def floor(self, rule, minimum, what=""):
